@@ -36,7 +36,7 @@ CHECKS = {
                                {"file": "kv/memberlist/memberlist_client.go", "rewrite": ['"sync"', '"go.uber.org/atomic"']},
                                {"file": "kv/multi.go", "rewrite": ['"sync"', '"go.uber.org/atomic"']}])]},
     "C08": {"parts": [P("lifecyclers", "./lifecycle", "^TestC08$", shards={"quick": 16, "thorough": 16}, budget={"quick": 200, "thorough": 1200}, gomaxprocs=1)]},
-    "C09": {"level": "fault_enumeration", "parts": [P("crash-and-faults", "./lifecycle", "^TestC09Crash$", budget={"quick": 240, "thorough": 1200}, gomaxprocs=1, overlay=TOK_OV),
+    "C09": {"level": "fault_enumeration", "parts": [P("crash-and-faults", "./lifecycle", "^TestC09Crash$", shards={"quick": 1, "thorough": 16}, budget={"quick": 240, "thorough": 1200}, gomaxprocs=1, overlay=TOK_OV),
                       P("tokens-file", "./lifecycle", "^TestC09TokensFile$", overlay=TOK_OV)]},
     "C10": {"parts": [P("dobatch", "./c10", "^TestC10$", shards={"quick": 16, "thorough": 16}, budget={"quick": 200, "thorough": 1200}, gomaxprocs=1,
                       overlay=[{"file": "ring/batch.go", "rewrite": ['"sync"', '"go.uber.org/atomic"']}])]},
